@@ -85,6 +85,17 @@ def F10():
     assert len(cs.s) == 6
 
 
+def F11():
+    cs = cstruct()
+    cs.load("union test { uint8 a; char b[]; };")
+    data = b"\x41BC\x00"
+    a = cs.test(io.BytesIO(data))
+    s = io.BytesIO(b"XXXX" + data)
+    s.seek(4)
+    b = cs.test(s)
+    assert a._sizes == b._sizes == {"a": 1, "b": 4}, (a._sizes, b._sizes)
+
+
 ALL = {k: v for k, v in globals().items() if k.startswith("F") and callable(v)}
 
 if __name__ == "__main__":
